@@ -515,10 +515,35 @@ func (c *Cluster) Lookup(coord int, kind string) (string, error) {
 			return fmt.Sprintf("fields=%v dimensions=%v", fs, ds), err
 		}
 		opt := query.IteratorOptions{Expr: influxql.MustParseExpr("v"), StartTime: influxql.MinTime, EndTime: influxql.MaxTime, Ascending: true}
-		_, err = sg.IteratorCost(m, opt)
-		// the figures (shards, series, cached values, blocks) are per-shard estimates that depend on
-		// placement and on cache versus files by design: only success / failure is observed
-		return "estimated", err
+		cost, err := sg.IteratorCost(m, opt)
+		if err != nil {
+			return "", err
+		}
+		// series, cached values and blocks are per-shard estimates that depend on placement and on cache
+		// versus files by design; the number of shards touched does not: every shard that holds the
+		// measurement is counted exactly once
+		want := int64(0)
+		c.mu.Lock()
+		rpi2, _ := c.Data.RetentionPolicy(DB, RP)
+		c.mu.Unlock()
+		for _, g := range rpi2.ShardGroups {
+			for _, sh := range g.Shards {
+				for _, nd := range c.Nodes {
+					if nd.Store.Shard(sh.ID) == nil {
+						continue
+					}
+					lc, lerr := nd.Store.ShardGroup([]uint64{sh.ID}).IteratorCost(m.Name, opt)
+					if lerr == nil {
+						want += lc.NumShards
+					}
+					break
+				}
+			}
+		}
+		if cost.NumShards != want {
+			return fmt.Sprintf("estimate counts %d shards, %d shards hold the measurement", cost.NumShards, want), nil
+		}
+		return "every shard counted once", nil
 	}
 	return "", fmt.Errorf("unknown lookup %q", kind)
 }
